@@ -266,7 +266,7 @@ func GenPSet(r *Run, id uint) PSet {
 			R: []int{0, 1, 2}[r.Choose("r", 3)], P: []int{0, 1, 2}[r.Choose("p", 3)]}
 	}
 	return PSet{ID: id, Algo: algoArgon, Time: uint32(1 + r.Choose("time", 2)), Memory: []uint32{8, 16, 64}[r.Choose("mem", 3)],
-		Threads: []uint8{1, 2, 4}[r.Choose("thr", 3)], Length: []uint32{32, 16, 24, 64}[r.Choose("len", 4)]}
+		Threads: []uint8{1, 2, 4}[r.Choose("thr", 3)], Length: []uint32{32, 16, 24, 64, 32, 3100, 4200}[r.Choose("len", 7)]}
 }
 
 // GenConfig draws a store configuration with 1..3 parameter sets and any default.
@@ -286,7 +286,9 @@ func GenConfig(r *Run, base string) Config {
 	return c
 }
 
-var namePool = []string{"alice", "bob", "a.user", "x.admin", "0", "Carol_9", "d@example.org", "e-f", strings.Repeat("n", 200)}
+// names include dotted extensions of other names (bob / bob.smith / bob.admin) and names that
+// look like file extensions
+var namePool = []string{"alice", "bob", "a.user", "x.admin", "0", "Carol_9", "d@example.org", "e-f", strings.Repeat("n", 200), "bob.smith", "bob.admin", "alice.user", "bob.smith@example.org"}
 
 var pwPool = []string{
 	"secret", "", "x", "pass:word", "line\nbreak", "nul\x00byte", "\xff\xfe\xfd", "trailing\x00", "trailing\x00\x00",
